@@ -83,6 +83,12 @@ def clause_upserts(prog, rep, sch, sites, only_tables=None):
             continue
         if only_tables is not None and st.table not in only_tables:
             continue
+        if st.conflict_any:
+            n += 1
+            rep.violation("upsert-complete", "%s/%s/conflict-target" % (last_seg(s.fn.root), st.table),
+                          "ON CONFLICT DO UPDATE on %s names no conflict target: the update also fires on a collision with *another row's* unique "
+                          "key (e.g. a different group holding the same nostr_group_id), overwriting that row instead of failing" % st.table, s.loc())
+            continue
         if st.conflict_cols:
             n += 1
             nonkey = set(st.columns) - set(st.conflict_cols)
@@ -93,6 +99,10 @@ def clause_upserts(prog, rep, sch, sites, only_tables=None):
             uniq = [set(u) for u in sch.tables[st.table]["unique"]] + [pk]
             rep.check(set(st.conflict_cols) in uniq, "upsert-complete", "%s/%s/conflict-target" % (last_seg(s.fn.root), st.table),
                       "conflict target %s is the table's key" % st.conflict_cols, "conflict target %s is not a key of %s" % (st.conflict_cols, st.table), s.loc())
+            # the record's identity is its primary key: an upsert keyed by a secondary unique column would rewrite another record
+            rep.check(set(st.conflict_cols) == pk, "upsert-complete", "%s/%s/conflict-target-is-pk" % (last_seg(s.fn.root), st.table),
+                      "the upsert replaces only the row with the same primary key %s" % sorted(pk),
+                      "upsert on %s is keyed by %s, not by the primary key %s: saving one record can overwrite a different one" % (st.table, st.conflict_cols, sorted(pk)), s.loc())
     rep.floor("upsert-complete", "ON CONFLICT upserts", n, 2 if only_tables is None else 1)
     # message key (C04.3): (mls_group_id, id)
     for s in sites:
